@@ -1,12 +1,87 @@
 import Driver.Util
-open Drv
+import Faithful.Lib.Paging
+import Std.Data.HashMap
+open Drv Paging
 
+/-!
+model side of the C07 line protocol (one answer line per op line)
+
+  case …                                         → ok
+  hist <addr> e=<epoch> absent                   → ok      the address is not in that epoch's index
+  hist <addr> e=<epoch> <rec>|<rec>|…            → ok      record chain, newest record first; <rec> = sig@slot,sig@slot… newest first
+  q   <view> <addr> <limit> <before|-> <until|-> → ok <epoch>:sig,sig;<epoch>:…   GetBeforeUntil      (`ok -` = empty, `err`)
+  qs  <view> <addr> <limit> <before> <until>     → same                            GetBeforeUntilSlot (repaired)
+  rpc <view> <addr> <limit|-> <before|-> <until|-> → ok sig,sig,…                  JSON-RPC handler (repaired)
+
+<view> = the loaded epochs in the order they are supplied to the multi-epoch reader, comma separated;
+`!` after an epoch = that reader's index lookup fails.
+-/
 namespace DrvC07
+
+abbrev Db := Std.HashMap String (List (Nat × Lookup String))
+
+def parseRec (s : String) : List (Tx String) :=
+  (s.splitOn ",").filterMap fun e =>
+    match e.splitOn "@" with
+    | [sig, slot] => some ⟨sig, slot.toNat!⟩
+    | _ => none
+
+def parseLookup (s : String) : Lookup String :=
+  if s = "absent" then .notFound
+  else if s = "failed" then .failed
+  else .found ((s.splitOn "|").map parseRec)
+
+def parseView (s : String) : List (Nat × Bool) :=
+  (s.splitOn ",").map fun p =>
+    if p.endsWith "!" then ((p.dropEnd 1).toString.toNat!, true) else (p.toNat!, false)
+
+def histOf (db : Db) (view : List (Nat × Bool)) (addr : String) : Hist String :=
+  let mine := db.getD addr []
+  view.map fun (e, broken) =>
+    if broken then (e, Lookup.failed)
+    else match mine.find? (fun x => x.1 == e) with
+      | some x => (e, x.2)
+      | none => (e, Lookup.notFound)
+
+def opt (s : String) : Option String := if s = "-" then none else some s
+
+def canon (view : List (Nat × Bool)) (out : Tagged String) : String :=
+  if out.isEmpty then "ok -" else
+  let parts := view.filterMap fun (e, _) =>
+    let g := group out e
+    if g.isEmpty then none else some (s!"{e}:" ++ ",".intercalate (g.map (·.sig)))
+  "ok " ++ ";".intercalate parts
+
+def step (db : Db) (l : String) : Db × String :=
+  match words l with
+  | "case" :: _ => (db, "ok")
+  | ["hist", addr, e, lk] =>
+    let epoch := (e.drop 2).toString.toNat!
+    (db.insert addr ((db.getD addr []).filter (fun x => x.1 != epoch) ++ [(epoch, parseLookup lk)]), "ok")
+  | ["q", view, addr, limit, b, u] =>
+    let v := parseView view
+    match iterBeforeUntil (histOf db v addr) (limit.toInt?.getD 0) (opt b) (opt u) with
+    | .ok out => (db, canon v out)
+    | .error _ => (db, "err")
+  | ["qs", view, addr, limit, b, u] =>
+    let v := parseView view
+    match iterBeforeUntilSlot true (histOf db v addr) (limit.toInt?.getD 0) b.toNat! u.toNat! with
+    | .ok out => (db, canon v out)
+    | .error _ => (db, "err")
+  | ["rpc", view, addr, limit, b, u] =>
+    let v := parseView view
+    match handler (histOf db v addr) (if limit = "-" then 0 else limit.toInt?.getD 0) (opt b) (opt u) with
+    | .ok sigs => (db, if sigs.isEmpty then "ok -" else "ok " ++ ",".intercalate sigs)
+    | .error _ => (db, "err")
+  | _ => (db, "bad-op")
 
 /-- model side of the C07 line protocol: one answer line per op line -/
 def run (lines : Array String) : IO Unit := do
   let out ← IO.getStdout
-  for _ in lines do
-    out.putStrLn "unimplemented"
+  let mut db : Db := {}
+  for l in lines do
+    let (db', ans) := step db l
+    db := db'
+    out.putStrLn ans
 
 end DrvC07
